@@ -8,19 +8,15 @@ import (
 func c18Item(i int) *Item {
 	it := &Item{}
 	small := (i > 0 && sym.Param("SMALLREST", 0) == 1) || sym.Param("SMALLALL", 0) == 1
-	if sym.Param("SMALLALL", 0) == 1 {
-		// a configuration about the relations between items (equal block numbers, order,
-		// count): numbers from a small concrete set around a varint length boundary.
-		// (Symbolic numbers below 128 made every query take seconds: 800 shared
-		// sub-terms over two 64-bit variables; the one-item configuration is the one
-		// that ranges over all 64-bit numbers.)
+	if small {
+		// Only the first item (or none, SMALLALL) ranges over all 64-bit numbers: the others take
+		// numbers from a small concrete set around a varint length boundary. (Two symbolic
+		// numbers, even below 128, made every query take seconds — about 800 shared sub-terms
+		// over two 64-bit variables — and a run take hours; these configurations are about the
+		// relations between items: equal numbers, order, count.)
 		it.BlockNum = []uint64{1, 127, 128}[sym.Choice("block-num-small", 3)]
 	} else {
 		it.BlockNum = sym.U64("block-num")
-		if small {
-			// only the first item ranges over every varint length (the second multiplies the paths otherwise)
-			sym.Assume(it.BlockNum < 128)
-		}
 	}
 	if sym.Param("FIXEDIDS", 0) == 1 {
 		// configuration about the relations between items: distinct concrete ids, so map
